@@ -318,10 +318,19 @@ struct EncOut {
     log_data: Option<Vec<u8>>,
 }
 
+/// a writer as a caller may well hold it: its vector with spare capacity behind what it holds (every other case, decided
+/// by the value to be written); capacity is not content and may not show in what is written
+fn spare_capacity(w: &mut VecWriter, key: usize) {
+    if key % 2 == 0 {
+        w.data.reserve_exact(3 + key % 61);
+    }
+}
+
 fn enc_msg_into(prefix: &[u8], m: &Message<Vec<u8>>) -> EncOut {
     let data = guard(|| {
         let mut w = VecWriter::new();
         w.write_bytes(prefix);
+        spare_capacity(&mut w, format!("{:?}", m).len());
         m.write(&mut w);
         std::mem::take(&mut w.data)
     });
@@ -335,6 +344,7 @@ fn enc_avp_into(prefix: &[u8], a: &AVP) -> EncOut {
     let data = guard(|| {
         let mut w = VecWriter::new();
         w.write_bytes(prefix);
+        spare_capacity(&mut w, format!("{:?}", a).len());
         a.write(&mut w);
         std::mem::take(&mut w.data)
     });
@@ -1074,12 +1084,13 @@ fn run(f: &[&str]) -> Option<String> {
             format!("{} | {}", parts.join(" / "), join(v))
         }
         "hide" => {
-            let a = to_crate(&TAvp::parse(f.get(1)?)?)?;
+            let t = TAvp::parse(f.get(1)?)?;
+            let _a = to_crate(&t)?;
             let secret = unhex(f.get(2)?)?;
             let rv = rv_of(f.get(3)?)?;
             let lp = unhex(f.get(4)?)?;
             let ap: [u8; 16] = unhex(f.get(5)?)?.try_into().ok()?;
-            match guard(|| a.clone().hide(&secret, &rv, &lp, &ap)) {
+            match guard(|| to_crate(&t).unwrap().hide(&secret, &rv, &lp, &ap)) {
                 None => "panic".into(),
                 Some(h) => from_crate(&h).render(),
             }
@@ -1089,7 +1100,7 @@ fn run(f: &[&str]) -> Option<String> {
             let a = to_crate(&t)?;
             let secret = unhex(f.get(2)?)?;
             let rv = rv_of(f.get(3)?)?;
-            match guard(|| a.clone().reveal(&secret, &rv)) {
+            match guard(|| to_crate(&t).unwrap().reveal(&secret, &rv)) /* built afresh: a clone would have lost the spare capacity */ {
                 None => "panic".into(),
                 Some(r) => {
                     let orc = match (&r, &a) {
@@ -1113,7 +1124,7 @@ fn run(f: &[&str]) -> Option<String> {
             let rv = rv_of(f.get(3)?)?;
             let lp = unhex(f.get(4)?)?;
             let ap: [u8; 16] = unhex(f.get(5)?)?.try_into().ok()?;
-            match guard(|| a.clone().hide(&secret, &rv, &lp, &ap)) {
+            match guard(|| to_crate(&t).unwrap().hide(&secret, &rv, &lp, &ap)) {
                 None => "h=panic".into(),
                 Some(h) => {
                     let mut v = vec![];
@@ -1148,7 +1159,7 @@ fn run(f: &[&str]) -> Option<String> {
                             }
                         }
                         // reveal of a non-hidden AVP is the identity
-                        let idr = guard(|| a.clone().reveal(&secret, &rv));
+                        let idr = guard(|| to_crate(&t).unwrap().reveal(&secret, &rv)) /* built afresh: a clone would have lost the spare capacity */;
                         if idr.as_ref().and_then(|x| x.as_ref().ok()) != Some(&a) {
                             v.push("FAIL:c11-plain:reveal-changes-a-non-hidden-avp".to_string());
                         }
